@@ -1314,7 +1314,7 @@ func (h *c15Harness) corpus() {
 		out := h.runScenario("corpus", sc)
 		h.raceMonitors(out)
 	}
-	// races of the unchanged code that need NO stalled node (C15_Refuted.v 4b, 4c) and the late fence (4d)
+	// races that need NO stalled node (C15_Refuted.v 4b: unchanged code; 4c: repaired by cd27b43) and the late fence (4d)
 	P := func(o c15Op) c15Op { o.Patient = true; return o }
 	stall := []c15Scenario{
 		// node 0 (create db1) reads the registry; node 1 creates db1 completely; node 0's waitForConfigDelete("")
@@ -1324,8 +1324,9 @@ func (h *c15Harness) corpus() {
 		// the same with an update request for a database that does not exist yet
 		{Name: "corpus/stale-wait-update-deletes-acked-create", Ops: []c15Op{c15Upd(1, 1, 1), c15Ins(1, 2, 1), c15Ld()},
 			Dirs: []c15Dir{S(0, 1), E(1), E(0), E(2)}},
-		// node 1 deletes db1 (config document gone), node 2 creates db1 and is acknowledged, node 1's finalize
-		// removes the new registry entry: nobody waits, nobody times out (all nodes patient)
+		// node 1 deletes db1 (config document gone), node 2 creates db1 and is acknowledged, then node 1 finalizes:
+		// before the repair cd27b43 the finalize removed the new registry entry (nobody waits, nobody times out: all
+		// nodes patient); the repaired finalize leaves an entry that is not marked deleted
 		{Name: "corpus/delete-finalize-removes-acked-create", Ops: []c15Op{c15Ins(1, 1, 1), P(c15Del(1)), P(c15Ins(1, 2, 2)), P(c15Ld()), c15Ld()},
 			Dirs: []c15Dir{E(0), S(1, 4), E(2), E(1), E(3), E(4)}},
 		// a loader writes its roll-back fence long after its decision (stalled): the creator that re-attempts an
